@@ -5,7 +5,8 @@ from .. import soups, px, contexts, monitor, docgrammar
 from ..alphabets import SIG, SIG_SMALL, EVERYTYPE_TOKENS, STRUCTURAL
 from ..engine import exc_key, exc_detail, ddmin, hyp_run, Result
 from ..treedump import dump, kinds_present
-from ..contexts import EXTRA_TOKENS
+from ..contexts import EXTRA_TOKENS, OPTIONS_TOKENS
+from ..alphabets import LEGACY
 
 ID = 'C06'
 LEVEL = 'exploration'
@@ -27,7 +28,8 @@ ASSUMPTIONS = [
 ]
 NSHARDS = 16
 ALPHA_EVERY = SIG_SMALL + EVERYTYPE_TOKENS
-ALPHAS = {'SIG': SIG, 'EVERY': ALPHA_EVERY, 'SMALL': SIG_SMALL, 'EXTRA': EXTRA_TOKENS}
+ALPHAS = {'SIG': SIG, 'EVERY': ALPHA_EVERY, 'SMALL': SIG_SMALL, 'EXTRA': EXTRA_TOKENS,
+          'OPTIONS': OPTIONS_TOKENS, 'LEGACY': LEGACY}
 STRAY = ['}', '\\end{x}', '\\)', '\\]', '\\end{itemize}']
 OPENERS = ['', '', '\\begin{x}', '\\begin{itemize}', '\\textbf{', '$', '\\[', '{']
 
@@ -48,6 +50,8 @@ def plan(tier, seed):
     shards = [('soup', 'default', 'SIG', L, k) for k in range(NSHARDS)]
     shards += [('soup', 'every', 'EVERY', LE, k) for k in range(NSHARDS)]
     shards += [('soup', 'extra', 'EXTRA', 3 if tier == 'quick' else 4, k) for k in range(NSHARDS)]
+    shards += [('soup', 'options', 'OPTIONS', 3 if tier == 'quick' else 4, k) for k in range(NSHARDS)]
+    shards += [('soup', 'default', 'LEGACY', 3 if tier == 'quick' else 4, k) for k in range(NSHARDS)]
     shards += [('soup', 'every-nounknown', 'EVERY', 2 if tier == 'quick' else 3, k)
                for k in range(NSHARDS)]
     shards += [('vsoup', 2 if tier == 'quick' else 3, k) for k in range(NSHARDS)]
